@@ -259,3 +259,75 @@ def replay_case(arg):
             except Exception as e:
                 fail('Support', type(e).__name__, repr(e))
     return fails, cnt
+
+
+def representation_checks(seed):
+    """PopLeaf!Representations: a population model's results are functions of the VALUES it is handed, not of how
+    the caller stores them.  Whole-number individual parameters / population parameters / upstream sensitivities are
+    passed as float arrays and as integer arrays; log-likelihood, transform and all three
+    sensitivity forms must coincide (leaf, composed, covariate and reduced models)."""
+    fails = []
+    rng = np.random.default_rng([seed, 5])
+
+    def models():
+        yield 'Gaussian(2)', chi.GaussianModel(n_dim=2), [2, 3, 1, 2], None
+        yield 'LogNormal', chi.LogNormalModel(), [1, 1], None
+        yield 'TruncatedGaussian', chi.TruncatedGaussianModel(), [2, 1], None
+        yield 'Composed[G, LN, P]', chi.ComposedPopulationModel([chi.GaussianModel(), chi.LogNormalModel(), chi.PooledModel()]), \
+            [2, 1, 1, 1, 3], None
+        yield 'Composed[Gnc(2), H]', chi.ComposedPopulationModel([chi.GaussianModel(n_dim=2, centered=False),
+                                                                 chi.HeterogeneousModel()]), None, None
+        yield 'Covariate(G)', chi.CovariatePopulationModel(chi.GaussianModel(), chi.LinearCovariateModel(n_cov=1)), \
+            [2, 1, 1, 1], [[1], [2], [3]]
+        red = chi.ReducedPopulationModel(chi.ComposedPopulationModel([chi.GaussianModel(), chi.PooledModel()]))
+        red.fix_parameters({'Std. Dim. 1': 2})
+        yield 'Reduced(Composed[G, P])', red, [3, 4], None
+    for name, m, par, cov in models():
+        nd = m.n_dim()
+        m.set_n_ids(3)
+        if par is None:
+            par = [2, 3, 1, 2, 4, 5, 6]             # Gnc(2): means, stds; H: one value per individual
+        psi = [[int(v) for v in row] for row in rng.integers(1, 5, size=(3, nd))]
+        # pooled and heterogeneous dimensions: the individual parameters ARE the population parameters
+        inner = m.get_population_model() if isinstance(m, chi.ReducedPopulationModel) else m
+        for d0, d1, p0, p1, pooled in inner.get_special_dims()[0]:
+            if isinstance(m, chi.ReducedPopulationModel):
+                continue                                   # (handled below: the reduced model pools its last dimension)
+            for d in range(d0, d1):
+                for i in range(3):
+                    psi[i][d] = par[p0 + (d - d0)] if pooled else par[p0 + i * (d1 - d0) + (d - d0)]
+        if isinstance(m, chi.ReducedPopulationModel):
+            for row in psi:
+                row[1] = par[1]
+        w = [[int(v) for v in row] for row in rng.integers(-3, 4, size=(3, nd))]
+        kw = {} if cov is None else {'covariates': np.array(cov, dtype=float)}
+        res = {}
+        for rep in ('float', 'int'):
+            conv = {'float': lambda a: np.array(a, dtype=float), 'int': lambda a: np.array(a, dtype=int)}[rep]
+            try:
+                with warnings.catch_warnings():
+                    warnings.simplefilter('ignore')
+                    out = [m.compute_log_likelihood(conv(par), conv(psi), **kw),
+                           m.compute_individual_parameters(conv(par), conv(psi), **kw)]
+                    for form in (dict(), dict(reduce=True), dict(flattened=False)):
+                        for up in (None, w):
+                            try:
+                                r_ = m.compute_sensitivities(conv(par), conv(psi), dlogp_dpsi=(None if up is None else conv(up)),
+                                                             **form, **kw)
+                            except TypeError:
+                                out += [np.array(np.nan)]          # (a form this class does not offer)
+                                continue
+                            out += [np.array(x, dtype=float) for x in r_]
+                res[rep] = out
+            except Exception as e:
+                fails.append(('Representations', type(e).__name__, dict(model=name, representation=rep, error=repr(e))))
+        for rep in ('int',):
+            if rep in res and 'float' in res:
+                a, b = res['float'], res[rep]
+                bad = [k for k in range(min(len(a), len(b)))
+                       if np.shape(a[k]) != np.shape(b[k]) or not np.allclose(a[k], b[k], rtol=1e-12, atol=1e-12, equal_nan=True)]
+                if len(a) != len(b) or bad:
+                    fails.append(('Representations', 'differs_from_float', dict(
+                        model=name, representation=rep, entries=bad[:5],
+                        float=[np.asarray(a[k]).tolist() for k in bad[:2]], other=[np.asarray(b[k]).tolist() for k in bad[:2]])))
+    return fails
